@@ -41,6 +41,14 @@ CHECKS = {
    text="Schema.tla defines Build(schema) and Accept(schema, value) as recursive functions over schema terms from the declared meaning of the s package (types, s:in, comparisons, length constraints, s:of, key constraints, s:no-other-keys, s:when, s:not, truthiness, regexp, nested validators, malformed terms). TLC computes the verdict of every generated schema (every type x every single constraint / composite / malformed term, plus seeded two-constraint schemas) against 33 representative values, with the algebraic laws NotInverts, FalsyIsNotTruthy, MalformedNeverPasses as invariants; the harness builds each schema with s:make-validator and evaluates s:validate on the real interpreter and compares construction outcome and result class / condition for every pair.",
    note="Regular expressions are limited to three fixed patterns (TLC strings are opaque). Tagged-value validators and s:deftype's global binding are not generated. One known finding: the strings \"true\"/\"false\" pass boolean checks (pinned by the repository's own test).",
    technique="TLA+ (TLC evaluates the specification's Accept on every case); spec verdicts replayed on the code", ref="DESIGN.md 6 C14"),
+ "C08": dict(engine="Machine",
+   text="The package registry of Machine.tla (in-package creating packages that use the language package's current exports, export, use-package copying the exported bindings by value at that moment, set / defun / defmacro binding in the current package, qualified access to any binding, self-evaluating unbindable keywords, the package swap to a function's defining package for the call, load-string restoring the package, true/false unbindable in every scope) predicts every history of package operations; TLC computes the transcript (every reference's value or error, the package current at every probe, the registry's exports and bound names after each evaluation) and it is compared with the real interpreter.",
+   note="Histories of <= 2 operations from an alphabet of 46 are exhaustive in the thorough tier (700-sample in quick), plus seeded histories of 4-9 operations. Package and symbol names are opaque strings to TLC; three packages and a handful of names.",
+   technique="TLA+ definitional machine run by TLC; spec-predicted transcripts and registry snapshots replayed on the code", ref="DESIGN.md 6 C08"),
+ "C18": dict(engine="Machine",
+   text="Machine.tla carries the per-environment location register (set by eval, saved and restored around argument evaluation, set by set!), stamps every error with a copy of it and of the call stack (each frame with its call-site node), keeps template positions through quasiquote and gives position-less nodes of a macro expansion the macro call site. For generated failing programs (19 error kinds under the wrapper chains of the shape family, in function bodies, handlers, macro templates and macro-built forms, rendered with seeded random layout) TLC predicts the node whose position the error must carry and the (frame name, call-site node) list; node ids are mapped to (line, col) of the rendered text and compared with (*LVal).Source() and CallStack() of the real error, also as captured inside a rethrowing handler.",
+   note="Positions are compared as (line, col) of the node start; end positions and the diagnostic renderer are not covered. About one generated program in four ends in an error (221 in a quick run).",
+   technique="TLA+ definitional machine run by TLC; predicted error node and frame list replayed on the code under random layout", ref="DESIGN.md 6 C18"),
 }
 
 NA_REASON = "check under construction (see DESIGN.md section 6); not yet claimed"
